@@ -59,40 +59,37 @@ func singleInstanceRejected(t *Topo, err error) bool {
 // internal/utils.BinarySearchFunc, used by the genuine GKR solve hint, looped forever as soon as two
 // input wires had dependencies and an instance chunk started after the last dependency of one of
 // them; fixed since). Every solve therefore runs under a watchdog: a solve of these circuits takes
-// milliseconds; one that is still running after hangTimeout is re-run once, and reported as a
-// violation ("does not terminate") if it exceeds the bound again. The abandoned goroutines keep
-// spinning until the process exits.
+// milliseconds; one that does not return is reported as a violation ("does not terminate").
+// The abandoned goroutines keep spinning until the process exits.
 
-const hangTimeout = 60 * time.Second
+// The bound is CPU time, not wall time (ev.Bounded): a loaded machine stretches the wall clock
+// arbitrarily, a spinning hint burns CPU. A deadlocked solve (idle process) is recognised too; a
+// solve still working at the wall cap is "slow" and treated as inconclusive by the callers' discard.
+const (
+	hangCPU     = 90 * time.Second
+	hangWallCap = 30 * time.Minute
+)
 
 var (
-	errHung       = errors.New("HUNG: still running after the watchdog bound, twice")
-	hangConfirmed atomic.Bool // once a solve hung, later ones (shrinking) get a shorter bound and no second chance
+	errHung       = errors.New("HUNG: solve does not return (CPU bound exceeded or process idle)")
+	errSlow       = errors.New("SLOW: solve still working at the wall cap (inconclusive)")
+	hangConfirmed atomic.Bool // once a solve hung, later ones (shrinking) get a shorter bound
 )
 
 // guarded runs f under the watchdog.
 func guarded(f func() error) error {
-	try := func(d time.Duration) (error, bool) {
-		done := make(chan error, 1)
-		go func() { done <- f() }()
-		select {
-		case e := <-done:
-			return e, true
-		case <-time.After(d):
-			return nil, false
-		}
-	}
+	cpu := hangCPU
 	if hangConfirmed.Load() {
-		if e, ok := try(hangTimeout / 6); ok {
-			return e
-		}
-		return errHung
+		// the abandoned goroutine keeps one core busy: allow for it, but do not wait long
+		cpu = hangCPU / 3
 	}
-	if e, ok := try(hangTimeout); ok {
-		return e
-	}
-	if e, ok := try(hangTimeout); ok {
-		return e
+	var err error
+	switch ev.Bounded(cpu, hangWallCap, func() { err = f() }) {
+	case ev.Returned:
+		return err
+	case ev.Slow:
+		slowSeen.Store(true)
+		return errSlow
 	}
 	hangConfirmed.Store(true)
 	return errHung
@@ -305,7 +302,20 @@ func isPanic(err error) bool { return err != nil && strings.HasPrefix(err.Error(
 
 // run executes a case. harness != "" reports a problem of the harness itself
 // (never a property violation).
+// slowSeen is set when a guarded call reached the wall cap while still working; the case that saw
+// it is inconclusive whatever the code after it concluded from the error.
+var slowSeen atomic.Bool
+
 func run(c Case) (out ev.Outcome, harness string) {
+	slowSeen.Store(false)
+	out, harness = runInner(c)
+	if slowSeen.Load() {
+		return ev.Outcome{Discard: true, DiscardWhy: "a solve was still working at the wall cap (loaded machine): inconclusive"}, ""
+	}
+	return out, harness
+}
+
+func runInner(c Case) (out ev.Outcome, harness string) {
 	f := prog.FieldByName(c.Curve)
 	p := f.Q
 	t := &c.Topo
@@ -349,6 +359,9 @@ func run(c Case) (out ev.Outcome, harness string) {
 			return out, "witness A: " + err.Error()
 		}
 		serr := guardedSolve(sys, wit, hintadv.HashCommitment())
+		if errors.Is(serr, errSlow) {
+			return ev.Outcome{Discard: true, DiscardWhy: "solve still working at the wall cap (loaded machine): inconclusive"}, ""
+		}
 		if errors.Is(serr, errHung) {
 			return ev.Outcome{Violation: fmt.Sprintf("%s the honest Solve does not terminate (%v)", wh, serr)}, ""
 		}
@@ -409,6 +422,9 @@ func run(c Case) (out ev.Outcome, harness string) {
 	*ip = constraint.GkrInfo{}
 
 	recH, err := solveDetached(c.Curve, sysB, newAssignment(t, "B", p, t.Vals, claimedOf(ref)), info, nil, p)
+	if errors.Is(err, errSlow) {
+		return ev.Outcome{Discard: true, DiscardWhy: "solve still working at the wall cap (loaded machine): inconclusive"}, ""
+	}
 	if errors.Is(err, errHung) {
 		return ev.Outcome{Violation: fmt.Sprintf("%s honest Solve with the genuine hints passed as overrides does not terminate (%v)", whB, err)}, ""
 	}
@@ -594,6 +610,9 @@ func run(c Case) (out ev.Outcome, harness string) {
 		}
 
 		rec, err := solveDetached(c.Curve, sysB, newAssignment(t, "B", p, vals, claimed), info, adv, p)
+		if errors.Is(err, errSlow) {
+			return ev.Outcome{Discard: true, DiscardWhy: "solve still working at the wall cap (loaded machine): inconclusive"}, ""
+		}
 		if errors.Is(err, errHung) {
 			return ev.Outcome{Violation: fmt.Sprintf("%s Solve does not terminate under the altered hint data (%v)", whF, err)}, ""
 		}
@@ -812,6 +831,7 @@ func check(t *testing.T, kind string, curves []string, minLogN, maxLogN, nQuick,
 	g := genCase(curves, minLogN, maxLogN)
 	rec.Check(t, kind, ev.N(nQuick, nThorough), func(rt *rapid.T) {
 		c := g.Draw(rt, "case")
+		rec.Begin(kind, c)
 		o, harness := run(c)
 		if harness != "" {
 			b, _ := json.Marshal(c)
